@@ -10,6 +10,7 @@ weight*g/f = const (g: proposal density from the kinematic limits, f: phase-spac
 both computed independently by the reference model).
 """
 import copy
+import os
 import math
 
 from sim.prng import Stream
@@ -98,7 +99,7 @@ def generate(job):
         spec["j_later"] = rs.choice(["0_then_all", "1", "all", "iid"])
         if spec["j_later"] == "1":
             spec["N"] = min(spec["N"], 7)  # one acceptance per refill batch: keep the number of batches small
-    spec["variant"] = rs.weighted([("plain", 6), ("cal_max", 2), ("no_force", 1), ("weights", 1), ("interrupted", 1), ("cal_max_interrupted", 1), ("fresh_after_importance", 1)]) if kind == "flat" else ("cal_max" if (kind == "config" and rs.chance(0.3)) else "plain")
+    spec["variant"] = rs.weighted([("plain", 6), ("cal_max", 2), ("no_force", 1), ("weights", 1), ("interrupted", 1), ("cal_max_interrupted", 1), ("fresh_after_importance", 1), ("list_reuse", 1)]) if kind == "flat" else ("cal_max" if (kind == "config" and rs.chance(0.3)) else "plain")
     if kind in ("flat", "gen_mc"):
         n = rs.weighted([(2, 1), (3, 4), (4, 3), (5, 3), (6, 2)])
         m0, ms = gen_masses(rs, n, rs.weighted([("plain", 5), ("light", 2), ("massless", 2), ("threshold", 2)]))
@@ -245,8 +246,16 @@ def run_generator(spec, log):
         with rng_seam(spec["rng_seed"], script=script) as src:
             kind = spec["kind"]
             if kind == "flat":
-                g = ph.PhaseSpaceGenerator(spec["m0"], list(spec["mi"]))
                 var = spec.get("variant", "plain")
+                caller_list = list(spec["mi"])
+                g = ph.PhaseSpaceGenerator(spec["m0"], caller_list)
+                if var == "list_reuse":
+                    # a mass scan: the caller edits the list the generator was built from and builds the next
+                    # generator from it; the first generator still describes ITS masses
+                    caller_list[0] = caller_list[0] * 0.5
+                    caller_list.reverse()
+                    other = ph.PhaseSpaceGenerator(spec["m0"], caller_list)
+                    log.count("probe.mass_list_edited_after_construction")
                 if var == "cal_max":
                     # tighten the bound with the library's own maximiser first: weights must still be <= 1
                     g.cal_max_weight()
@@ -363,12 +372,12 @@ CARDS = {
     "plain4": {
         "decay": {"A": [["R_BCD", "E"], ["R_CDE", "B"]], "R_BCD": [["R_BC", "D"]], "R_CDE": [["R_DE", "C"]], "R_BC": ["B", "C"], "R_DE": ["D", "E"]},
         "particle": {
-            "$top": {"A": {"J": 0, "P": -1, "mass": 5.0}},
-            "$finals": {"B": {"J": 0, "P": -1, "mass": 0.5}, "C": {"J": 0, "P": -1, "mass": 0.14}, "D": {"J": 0, "P": -1, "mass": 0.3}, "E": {"J": 0, "P": -1, "mass": 0.9}},
-            "R_BCD": {"J": 1, "P": 1, "mass": 3.0, "width": 0.2},
-            "R_CDE": {"J": 1, "P": 1, "mass": 3.2, "width": 0.2},
-            "R_BC": {"J": 1, "P": -1, "mass": 1.2, "width": 0.1},
-            "R_DE": {"J": 1, "P": -1, "mass": 1.6, "width": 0.1},
+            "$top": {"A": {"J": 0, "P": 1, "mass": 5.0}},
+            "$finals": {"B": {"J": 0, "P": 1, "mass": 0.5}, "C": {"J": 0, "P": 1, "mass": 0.14}, "D": {"J": 0, "P": 1, "mass": 0.3}, "E": {"J": 0, "P": 1, "mass": 0.9}},
+            "R_BCD": {"J": 0, "P": 1, "mass": 3.0, "width": 0.2},
+            "R_CDE": {"J": 0, "P": 1, "mass": 3.2, "width": 0.2},
+            "R_BC": {"J": 0, "P": 1, "mass": 1.2, "width": 0.1},
+            "R_DE": {"J": 0, "P": 1, "mass": 1.6, "width": 0.1},
         },
     },
     "one_R_BC": {
@@ -382,10 +391,10 @@ CARDS = {
     "two_one_nodes": {
         "decay": {"A": [["R1", "E"]], "R1": [["R2", "D"]], "R2": ["B", "C"]},
         "particle": {
-            "$top": {"A": {"J": 0, "P": -1, "mass": 5.0}},
-            "$finals": {"B": {"J": 0, "P": -1, "mass": 0.5}, "C": {"J": 0, "P": -1, "mass": 0.14}, "D": {"J": 0, "P": -1, "mass": 0.14}, "E": {"J": 0, "P": -1, "mass": 0.5}},
-            "R1": {"J": 1, "P": 1, "mass": 3.0, "model": "one"},
-            "R2": {"J": 1, "P": -1, "mass": 1.2, "model": "one"},
+            "$top": {"A": {"J": 0, "P": 1, "mass": 5.0}},
+            "$finals": {"B": {"J": 0, "P": 1, "mass": 0.5}, "C": {"J": 0, "P": 1, "mass": 0.14}, "D": {"J": 0, "P": 1, "mass": 0.14}, "E": {"J": 0, "P": 1, "mass": 0.5}},
+            "R1": {"J": 0, "P": 1, "mass": 3.0, "model": "one"},
+            "R2": {"J": 0, "P": 1, "mass": 1.2, "model": "one"},
         },
     },
 }
@@ -542,7 +551,10 @@ def execute(spec):
             raise
         log.ev("raised", err=type(e).__name__, msg=str(e)[:200])
         log.count("probe.library_raised")
-        # a generator that raises delivers no events: only legitimate for invalid masses
+        # every generated mass set / structure / card is valid (positive Q-value): a generator that raises
+        # delivers no events at all
+        sfx = "|after-cal_max_weight" if (spec.get("variant") == "cal_max" or spec.get("_calmax_completed")) else ""
+        log.fail("count", "%s|raised|%s%s" % (kind, type(e).__name__, sfx), "the generator raised %s: %s (at %s:%d) instead of delivering %d events" % (type(e).__name__, str(e)[:160], os.path.basename(tb[-1].filename), tb[-1].lineno, spec["N"]))
         res = log.result(spec=spec, nontrivial=False)
         res["opkinds"] = {kind: 1}
         return res
@@ -601,7 +613,7 @@ def execute(spec):
                 log.fail("momentum-conservation", "%s|momentum-conservation" % kind, "momenta do not add up to the parent at rest: |sum E - m0| = %.3g, |sum p| = %.3g (m0=%r, masses=%r)" % (dE, dp, m0, mi))
                 raise StopIteration
             # exactly-once / order: emitted event r comes from the r-th accepted proposal
-            if var in ("plain", "cal_max", "interrupted", "cal_max_interrupted", "fresh_after_importance") and n >= 3 and rec.batches and all(b["rnd"] is not None for b in rec.batches):
+            if var in ("plain", "cal_max", "interrupted", "cal_max_interrupted", "fresh_after_importance", "list_reuse") and n >= 3 and rec.batches and all(b["rnd"] is not None for b in rec.batches):
                 acc = [[] for _ in range(n - 2)]
                 for b in rec.batches:
                     sel = b["weight"] > b["rnd"]
